@@ -116,8 +116,16 @@ Fixpoint do_pokes (ps : list (Z * Z)) (s : state) : state * list entry :=
       end
   end.
 
-Definition eff_pos (o : origin) (pos np : nat) : nat :=
-  match o with OCoro => (np - 1)%nat | _ => Nat.modulo pos np end.
+Definition coros (w : Z) (a n : nat) : list entry := map (fun i => ECoro w i) (seq a n).
+
+(* World.process calls the scripted processors in order, then the
+   CoroutineProcessor, which runs the coroutines in order, one step each.
+   How many processors / coroutines have been called when the acting one
+   (processor pos mod np, or coroutine pos mod nc) has begun: *)
+Definition procs_upto (o : origin) (pos np : nat) : nat :=
+  match o with OCoro => np | _ => S (Nat.modulo pos np) end.
+Definition coros_upto (o : origin) (pos nc : nat) : nat :=
+  match o with OCoro => S (Nat.modulo pos nc) | _ => O end.
 
 Definition fres_of (r : res) : fres :=
   match r with
@@ -133,7 +141,7 @@ Definition prefix (l : list entry) (x : option (state * list entry * fres))
 
 Section Run.
   Variable fuel : nat.
-  Variable nps : list nat.
+  Variable nps ncs : list nat.
 
   (* how the iteration goes on after the acting processor: the action returned
      (the remaining processors [rest] run), raised SwitchWorld (except clause
@@ -169,9 +177,11 @@ Section Run.
     let s0 := set_inh false s in
     let w := s_curw s in
     let np := np_of nps (s_curh s) in
-    let pos := eff_pos (f_org f) (f_pos f) np in
-    let head := EClock t w (s_curh s) :: procs w dt 0 (S pos) in
-    let rest := procs w dt (S pos) (np - S pos) in
+    let nc := np_of ncs (s_curh s) in
+    let pb := procs_upto (f_org f) (f_pos f) np in
+    let cb := coros_upto (f_org f) (f_pos f) nc in
+    let head := EClock t w (s_curh s) :: procs w dt 0 pb ++ coros w 0 cb in
+    let rest := procs w dt pb (np - pb) ++ coros w cb (nc - cb) in
     let '(s1, lp) := do_pokes (f_pokes f) s0 in
     match f_act f with
     | ANormal => Some (s1, head ++ lp ++ rest, FCont)
@@ -201,10 +211,10 @@ End Run.
 (* SimpleLoop.start: try: Loop.start() finally: last_timestamp = None
    Loop.start: running = True; try: loop() except Quit: running = False.
    Returns the state, the timestamp left behind and the log. *)
-Definition run_start (nps : list nat) (last : option Z) (fs : list frame) (ek : endkind)
+Definition run_start (nps ncs : list nat) (last : option Z) (fs : list frame) (ek : endkind)
            (rs : list reaction) (s : state) : option (state * option Z * list entry) :=
   let running := true in
-  match run_frames (S (length rs)) nps last fs ek (set_reacts rs s) with
+  match run_frames (S (length rs)) nps ncs last fs ek (set_reacts rs s) with
   | None => None
   | Some (s1, l, r) =>
       let running := match r with FQuit => false | _ => running end in
@@ -216,7 +226,7 @@ Definition run_start (nps : list nat) (last : option Z) (fs : list frame) (ek : 
       Some (s1, None (* finally *), l ++ [EEnd out (s_curw s1) (s_curh s1)])
   end.
 
-Definition run_op (nps : list nat) (last : option Z) (o : op) (s : state)
+Definition run_op (nps ncs : list nat) (last : option Z) (o : op) (s : state)
   : option (state * option Z * list entry) :=
   match o with
   | OTop h cc cn rs =>
@@ -232,21 +242,22 @@ Definition run_op (nps : list nat) (last : option Z) (o : op) (s : state)
                       | RExn (XSW _ _ _ _) => ETopExc TSwitch w hh
                       end])
       end
-  | OStart fs ek rs => run_start nps last fs ek rs s
+  | OStart fs ek rs => run_start nps ncs last fs ek rs s
   end.
 
-Fixpoint run_ops (nps : list nat) (last : option Z) (ops : list (op * list entry)) (s : state)
+Fixpoint run_ops (nps ncs : list nat) (last : option Z) (ops : list (op * list entry))
+         (s : state)
   : bool :=
   match ops with
   | [] => true
   | (o, obs) :: ops' =>
-      match run_op nps last o s with
+      match run_op nps ncs last o s with
       | None => false
-      | Some (s1, last1, l) => log_eqb l obs && run_ops nps last1 ops' s1
+      | Some (s1, last1, l) => log_eqb l obs && run_ops nps ncs last1 ops' s1
       end
   end.
 
-Definition accepts (c : rcase) : bool := run_ops (c_nps c) None (c_ops c) init.
+Definition accepts (c : rcase) : bool := run_ops (c_nps c) (c_ncs c) None (c_ops c) init.
 
 (* ---- input domain -------------------------------------------------------- *)
 Fixpoint sorted_from (t : Z) (l : list Z) : bool :=
@@ -280,6 +291,7 @@ Definition op_reacts (o : op) : list reaction :=
 
 Definition wf_b (c : rcase) : bool :=
   forallb (fun x => forallb (fun r => negb (is_direct (snd r))) (op_reacts (fst x))) (c_ops c)
+  && forallb (fun n => (1 <=? n)%nat) (c_ncs c)
   && forallb (fun n => (1 <=? n)%nat) (c_nps c)
   && first_is_top (c_ops c)
   && forallb (fun x => match fst x with
